@@ -59,7 +59,9 @@ CRunOne ==
            stf == IF starts THEN [s EXCEPT !.idx[c] = @ + 1, !.rtx[c] = 0] ELSE s
            f == PickFault(sc, stf, c)
            o == PickConn(sc, s)
-           X == Callback(X0(s), cb, f, o, sc.gap)
+           \* the pause after the request caller c is finishing (per caller and request when the script gives `gaps`)
+           g == IF Len(sc.gaps) >= c /\ s.idx[c] >= 1 /\ s.idx[c] <= Len(sc.gaps[c]) THEN sc.gaps[c][s.idx[c]] ELSE sc.gap
+           X == Callback(X0(s), cb, f, o, g)
        IN /\ Matches(X.ev, sc.ev, pos)
           /\ s' = X.s
           /\ ready' = Tail(ready) \o X.q
